@@ -210,22 +210,17 @@ Proof.
 Qed.
 
 (* ---- SubVector ---- *)
-Definition in_slice (x : vv) (i j : Z) : Prop :=
-  match x with Sub _ bgn en => (0 <= i)%Z /\ (j <= en - bgn)%Z | Vec _ => True end.
-
-Lemma v_sub_ref strict x i j : Inv_vv x -> strict = true \/ in_slice x i j ->
-  R (Ok (v_sub strict x i j)) (l_sub (abs_vv x) i j).
+Lemma v_sub_ref x i j : Inv_vv x -> R (Ok (v_sub x i j)) (l_sub (abs_vv x) i j).
 Proof.
   destruct x as [v|v bgn en].
-  - simpl. intros H _. apply vec_sub_ref; exact H.
-  - intros [H [H1 H2]] Hsafe. pose proof (sub_length v bgn en H H1 H2) as Hl.
+  - simpl. intros H. apply vec_sub_ref; exact H.
+  - intros [H [H1 H2]]. pose proof (sub_length v bgn en H H1 H2) as Hl.
     cbn [abs_vv v_sub]. unfold l_sub, zlen. rewrite Hl.
     destruct (Z.leb_spec 0 i) as [A|A]; destruct (Z.leb_spec i j) as [A'|A'];
       destruct (Z.leb_spec j (Z.of_nat (Z.to_nat (en - bgn)))) as [A''|A'']; cbn [andb].
-    + (* inside the slice *)
-      replace (strict && ((i <? 0)%Z || (i >? j)%Z || (j >? en - bgn)%Z)) with false.
-      2:{ destruct (Z.ltb_spec i 0); [lia|]. destruct (Z.gtb_spec i j); [lia|].
-          destruct (Z.gtb_spec j (en - bgn)); [lia|]. destruct strict; reflexivity. }
+    1:{ (* inside the slice *)
+      destruct (Z.ltb_spec i 0); [lia|]. destruct (Z.gtb_spec i j); [lia|].
+      destruct (Z.gtb_spec j (en - bgn)); [lia|]. cbn [orb].
       pose proof (vec_sub_ref v (bgn + i) (bgn + j) H) as HS. unfold l_sub, zlen in HS. rewrite (len_abs v H) in HS.
       destruct (Z.leb_spec 0 (bgn + i)); [|lia]. destruct (Z.leb_spec (bgn + i) (bgn + j)); [|lia].
       destruct (Z.leb_spec (bgn + j) (count v)); [|lia]. cbn [andb] in HS.
@@ -233,20 +228,9 @@ Proof.
       rewrite skipn_firstn_sub, firstn_firstn, skipn_skipn.
       replace (Z.to_nat (bgn + i)) with (Z.to_nat bgn + Z.to_nat i) by lia.
       replace (Z.to_nat (bgn + j - (bgn + i))) with (Z.to_nat (j - i)) by lia.
-      f_equal. lia.
-    + destruct Hsafe as [->|[S1 S2]].
-      * cbn [andb]. destruct (Z.gtb_spec j (en - bgn)); [|lia]. rewrite !orb_true_r. reflexivity.
-      * lia.
-    + destruct strict.
-      * cbn [andb]. destruct (Z.gtb_spec i j); [|lia]. rewrite orb_true_r. reflexivity.
-      * cbn [andb]. unfold vec_sub. destruct (Z.gtb_spec (bgn + i) (bgn + j)); [|lia]. rewrite orb_true_r. reflexivity.
-    + destruct strict.
-      * cbn [andb]. destruct (Z.gtb_spec i j); [|lia]. rewrite orb_true_r. reflexivity.
-      * cbn [andb]. unfold vec_sub. destruct (Z.gtb_spec (bgn + i) (bgn + j)); [|lia]. rewrite orb_true_r. reflexivity.
-    + destruct Hsafe as [->|[S1 S2]]; [|lia]. cbn [andb]. destruct (Z.ltb_spec i 0); [|lia]. reflexivity.
-    + destruct Hsafe as [->|[S1 S2]]; [|lia]. cbn [andb]. destruct (Z.ltb_spec i 0); [|lia]. reflexivity.
-    + destruct Hsafe as [->|[S1 S2]]; [|lia]. cbn [andb]. destruct (Z.ltb_spec i 0); [|lia]. reflexivity.
-    + destruct Hsafe as [->|[S1 S2]]; [|lia]. cbn [andb]. destruct (Z.ltb_spec i 0); [|lia]. reflexivity.
+      f_equal. lia. }
+    all: destruct (Z.ltb_spec i 0); destruct (Z.gtb_spec i j); destruct (Z.gtb_spec j (en - bgn));
+         try lia; reflexivity.
 Qed.
 
 (* ---- iteration ---- *)
@@ -317,8 +301,8 @@ Proof.
     destruct (Z.leb_spec 0 k); destruct (Z.ltb_spec k (zlen (abs_vv x))); try lia; reflexivity.
 Qed.
 
-Lemma vals_slice_ref strict x i j : Inv_vv x ->
-  R (Ok (vals_slice strict x i j))
+Lemma vals_slice_ref x i j : Inv_vv x ->
+  R (Ok (vals_slice x i j))
     (l_sub (abs_vv x) (norm_index i (zlen (abs_vv x))) (norm_index j (zlen (abs_vv x)))).
 Proof.
   intros H. unfold vals_slice. rewrite (v_len_ref x H), !adjust_spec by apply zlen_nonneg. cbv zeta.
@@ -329,8 +313,7 @@ Proof.
   destruct (Z.leb_spec 0 i'); destruct (Z.leb_spec i' n); cbn [andb]; try (rewrite Hrej by lia; reflexivity).
   destruct (Z.leb_spec 0 j'); destruct (Z.leb_spec j' n); cbn [andb]; try (rewrite Hrej by lia; reflexivity).
   destruct (Z.ltb_spec j' i'); [rewrite Hrej by lia; reflexivity|].
-  apply v_sub_ref; [exact H|]. right. destruct x as [v|v bgn en]; simpl; [exact I|].
-  destruct H as [Hv [Hx1 Hx2]]. unfold n, zlen in *. cbn [abs_vv] in *. rewrite sub_length in * by assumption. lia.
+  apply v_sub_ref; exact H.
 Qed.
 
 Lemma vals_assoc_ref x i a : Inv_vv x ->
@@ -352,11 +335,6 @@ Definition abs_out (o : outcome vv) : outcome (list any) :=
 
 Definition out_inv (o : outcome vv) : Prop := match o with XVec y => Inv_vv y | _ => True end.
 
-(* the one defective operation of the code as it is: a slice of a slice
-   requested with bounds outside the slice *)
-Definition op_safe (x : vv) (o : op) : Prop :=
-  match o with OSub _ i j => in_slice x i j | _ => True end.
-
 Lemma R_out r s : R r s -> abs_out (of_vres r) = of_opt s /\ out_inv (of_vres r).
 Proof.
   destruct s as [l|]; simpl.
@@ -371,16 +349,16 @@ Proof.
   - intros E. injection E as ->. simpl. auto.
 Qed.
 
-Theorem apply_refines strict x o : Inv_vv x -> strict = true \/ op_safe x o ->
-  abs_out (m_apply b strict x o) = s_apply (abs_vv x) o /\ out_inv (m_apply b strict x o).
+Theorem apply_refines x o : Inv_vv x ->
+  abs_out (m_apply b x o) = s_apply (abs_vv x) o /\ out_inv (m_apply b x o).
 Proof.
-  intros H Hs. destruct o; cbn [m_apply s_apply].
+  intros H. destruct o; cbn [m_apply s_apply].
   - apply (R_out _ (Some _)). apply v_conj_ref; exact H.
   - apply (R_out _ (Some _)). apply conj_range_ref; exact H.
   - apply R_out. apply v_pop_ref; exact H.
   - apply R_out. apply pop_n_ref; exact H.
   - apply R_out. apply v_assoc_ref; exact H.
-  - apply R_out_opt. apply v_sub_ref; [exact H|exact Hs].
+  - apply R_out_opt. apply v_sub_ref; exact H.
   - rewrite v_index_ref by exact H. simpl. auto.
   - rewrite v_iter_ref by exact H. simpl. auto.
   - rewrite vals_index_ref by exact H. simpl. auto.
@@ -400,15 +378,6 @@ Definition slot_rel (m : option vv) (s : option (list any)) : Prop :=
   end.
 Definition st_rel := Forall2 slot_rel.
 
-Definition target_safe (ms : list (option vv)) (o : op) : Prop :=
-  match nth_error ms (op_target o) with Some (Some x) => op_safe x o | _ => True end.
-
-Fixpoint safe (ms : list (option vv)) (ops : list op) : Prop :=
-  match ops with
-  | [] => True
-  | o :: r => target_safe ms o /\ safe (fst (step (m_apply b false) ms o)) r
-  end.
-
 Lemma st_rel_nth ms ss k : st_rel ms ss ->
   match nth_error ms k, nth_error ss k with
   | Some m, Some s => slot_rel m s
@@ -419,17 +388,17 @@ Proof.
   intros H. revert k. induction H as [|m s ms ss Hms H IH]; intros [|k]; simpl; auto. apply IH.
 Qed.
 
-Lemma step_refines strict ms ss o : st_rel ms ss -> strict = true \/ target_safe ms o ->
-  st_rel (fst (step (m_apply b strict) ms o)) (fst (step s_apply ss o)) /\
-  abs_out (snd (step (m_apply b strict) ms o)) = snd (step s_apply ss o).
+Lemma step_refines ms ss o : st_rel ms ss ->
+  st_rel (fst (step (m_apply b) ms o)) (fst (step s_apply ss o)) /\
+  abs_out (snd (step (m_apply b) ms o)) = snd (step s_apply ss o).
 Proof.
-  intros Hst Hs. unfold step, target_safe in *. pose proof (st_rel_nth ms ss (op_target o) Hst) as Hn.
+  intros Hst. unfold step. pose proof (st_rel_nth ms ss (op_target o) Hst) as Hn.
   destruct (nth_error ms (op_target o)) as [[x|]|]; destruct (nth_error ss (op_target o)) as [[l|]|];
     simpl in Hn; try contradiction.
   - destruct Hn as [Ix Ax]. subst l.
-    destruct (apply_refines strict x o Ix Hs) as [E Io]. cbn [fst snd]. split; [|exact E].
+    destruct (apply_refines x o Ix) as [E Io]. cbn [fst snd]. split; [|exact E].
     destruct (creates o); [|exact Hst]. apply Forall2_app; [exact Hst|]. constructor; [|constructor].
-    rewrite <- E. destruct (m_apply b strict x o); simpl in *; auto.
+    rewrite <- E. destruct (m_apply b x o); simpl in *; auto.
   - cbn [fst snd]. split; [|reflexivity]. destruct (creates o); [|exact Hst].
     apply Forall2_app; [exact Hst|]. constructor; [exact I|constructor].
   - cbn [fst snd]. split; [|reflexivity]. destruct (creates o); [|exact Hst].
@@ -440,22 +409,13 @@ Lemma run_cons {V} (ap : V -> op -> outcome V) st o r :
   run ap st (o :: r) = snd (step ap st o) :: run ap (fst (step ap st o)) r.
 Proof. cbn [run]. destruct (step ap st o). reflexivity. Qed.
 
-Theorem history_refines_list_strict ops : forall ms ss, st_rel ms ss ->
-  map abs_out (run (m_apply b true) ms ops) = run s_apply ss ops.
+Theorem history_refines_list ops : forall ms ss, st_rel ms ss ->
+  map abs_out (run (m_apply b) ms ops) = run s_apply ss ops.
 Proof.
   induction ops as [|o r IH]; intros ms ss Hst; [reflexivity|].
   rewrite !run_cons. cbn [map].
-  destruct (step_refines true ms ss o Hst (or_introl eq_refl)) as [Hst' E]. rewrite E. f_equal.
+  destruct (step_refines ms ss o Hst) as [Hst' E]. rewrite E. f_equal.
   apply IH; exact Hst'.
-Qed.
-
-Theorem history_refines_list_partial ops : forall ms ss, st_rel ms ss -> safe ms ops ->
-  map abs_out (run (m_apply b false) ms ops) = run s_apply ss ops.
-Proof.
-  induction ops as [|o r IH]; intros ms ss Hst Hsafe; [reflexivity|].
-  rewrite !run_cons. cbn [map]. destruct Hsafe as [Ho Hr].
-  destruct (step_refines false ms ss o Hst (or_intror Ho)) as [Hst' E]. rewrite E. f_equal.
-  apply IH; assumption.
 Qed.
 
 Lemma st_rel_init : st_rel [Some (Vec empty)] [Some []].
